@@ -212,12 +212,12 @@ func worker(c workerCfg) {
 	s := e2e.Start(serverFlags(c)...)
 	rep := workerReport{Cfg: c.Cfg, Layout: c.Layout, StartS: time.Since(t0).Seconds()}
 	t1 := time.Now()
-	s.CreateGroup(gMeasure, commonv1.Catalog_CATALOG_MEASURE, 1, 1, 3)
-	s.CreateGroup(gStream, commonv1.Catalog_CATALOG_STREAM, 1, 1, 3)
-	s.CreateGroup(gTrace, commonv1.Catalog_CATALOG_TRACE, 1, 1, 3)
+	s.CreateGroup(gMeasure, commonv1.Catalog_CATALOG_MEASURE, 2, 1, 3)
+	s.CreateGroup(gStream, commonv1.Catalog_CATALOG_STREAM, 2, 1, 3)
+	s.CreateGroup(gTrace, commonv1.Catalog_CATALOG_TRACE, 2, 1, 3) // two shards = two sidx instances: the ordered trace query merges
 	s.CreateMeasure(gMeasure, nMeasure, []string{"svc"}, measureFamilies(), measureFieldSpecs(), false, measureIndex()...)
 	if c.Multi {
-		s.CreateGroup(gMeasure2, commonv1.Catalog_CATALOG_MEASURE, 1, 1, 3)
+		s.CreateGroup(gMeasure2, commonv1.Catalog_CATALOG_MEASURE, 2, 1, 3)
 		s.CreateMeasure(gMeasure2, nMeasure, []string{"svc"}, measureFamilies(), measureFieldSpecs(), false, measureIndex()...)
 	}
 	s.CreateStream(gStream, nStream, []string{"svc"}, streamFamilies(), streamIndex()...)
@@ -788,6 +788,7 @@ func main() {
 		}
 		res[c.Cfg+"/"+c.Layout] = rs
 	}
+	wireRoundTrip(r, cases, res["off/mem"])
 	var dump *os.File
 	if p := os.Getenv("C15_DUMP"); p != "" {
 		dump, _ = os.Create(p)
